@@ -406,6 +406,9 @@ pub struct ExecOpts {
     /// run the data decoders and the whole-symbol DataMatrix::decode (needed by the C03 and C05 oracles only;
     /// C08 and C09 do not look at them, and a defect there must not keep those checks from finishing)
     pub data_stage: bool,
+    /// enumeration phases at the codeword stage only: hand the damaged codeword vector to decode_error
+    /// directly (no rendering / parsing / whole-symbol decode); the staged C03 / C09 / C05 oracles still apply
+    pub codeword_only: bool,
 }
 
 #[inline]
@@ -582,6 +585,29 @@ fn execute_one(ctx: &Ctx, trace: &Trace, opts: &ExecOpts) -> Outcome {
         s2f = sent.clone();
         apply_s2(&trace.faults, &mut s2f, &mut o.fired);
 
+        if opts.codeword_only && !trace.faults.iter().any(|f| f.op.stage() == Stage::S4) {
+            for (f, fired) in trace.faults.iter().zip(o.fired.iter()) {
+                if *fired {
+                    o.fired_kinds |= 1u64 << f.kind;
+                }
+            }
+            let mut dist = vec![0usize; s.blocks];
+            for p in 0..s.n_total() {
+                if s2f[p] != sent[p] {
+                    dist[s.block_of(p)] += 1;
+                    o.regions |= if s.is_ec(p) { 2 } else { 1 };
+                    o.regions |= if s.block_of(p) == 0 { 4 } else { 8 };
+                }
+            }
+            let t = s.t();
+            o.block_damage = dist.iter().map(|d| if *d == 0 { 0 } else if *d < t { 1 } else if *d == t { 2 } else if *d == t + 1 { 3 } else { 4 }).collect();
+            o.premise_c03 = dist.iter().all(|d| *d <= t);
+            o.parse = ParseClass::NotRun;
+            let mut staged_panicked = false;
+            let light = ExecOpts { c08: false, data_after_ec_failure: false, data_stage: false, codeword_only: true };
+            let _ = consumer_ec_and_data(ctx, s, sinfo, &sent, s2f.clone(), &light, prop, &mut o, &mut staged_panicked);
+            return o;
+        }
         // ---------------- S3/S4: render ----------------
         match guard(|| {
             let bm = MatrixMap::new_with_codewords(&s2f, s.size).bitmap();
